@@ -15,7 +15,7 @@ import (
 
 var _ = verifref.Hash
 
-func vtmp(prefix string) string {
+func vfVtmp(prefix string) string {
 	base := os.Getenv("VERIF_TMP")
 	if base == "" {
 		base = os.TempDir()
@@ -27,8 +27,8 @@ func vtmp(prefix string) string {
 	return d
 }
 
-// guarded runs fn and reports a panic (with stack) instead of propagating it.
-func guarded(fn func()) (pv any, stack string) {
+// vfGuarded runs fn and reports a panic (with stack) instead of propagating it.
+func vfGuarded(fn func()) (pv any, stack string) {
 	defer func() {
 		if r := recover(); r != nil {
 			pv = r
@@ -40,9 +40,9 @@ func guarded(fn func()) (pv any, stack string) {
 	return nil, ""
 }
 
-// topFrame extracts the innermost frame of the code under test from a stack,
+// vfTopFrame extracts the innermost frame of the code under test from a stack,
 // for signatures.
-func topFrame(stack string) string {
+func vfTopFrame(stack string) string {
 	lines := strings.Split(stack, "\n")
 	for i, l := range lines {
 		if strings.Contains(l, "verifrt") || strings.HasPrefix(l, "runtime") || strings.HasPrefix(l, "panic(") {
@@ -61,34 +61,34 @@ func topFrame(stack string) string {
 	return "?"
 }
 
-// exitFrame names the function that ended the (virtual) process through
+// vfExitFrame names the function that ended the (virtual) process through
 // debugFatalf -> os.Exit: the first telemetry frame below debugFatalf.
-func exitFrame(stack string) string {
+func vfExitFrame(stack string) string {
 	if i := strings.Index(stack, "debugFatalf("); i >= 0 {
 		rest := stack[i:]
 		if j := strings.Index(rest, "\n"); j >= 0 {
 			rest = rest[j+1:]
 			if k := strings.Index(rest, "\n"); k >= 0 {
-				return topFrame(rest[k+1:])
+				return vfTopFrame(rest[k+1:])
 			}
 		}
 	}
-	return topFrame(stack)
+	return vfTopFrame(stack)
 }
 
-// trapExit makes a "counter bug" exit (debugFatalf with CrashOnBugs, as the go
+// vfTrapExit makes a "counter bug" exit (debugFatalf with CrashOnBugs, as the go
 // command's tests and GODEBUG=countertrace=1 run it) end only the calling
 // virtual process, with a panic the judges recognise.
-func trapExit() {
+func vfTrapExit() {
 	CrashOnBugs = true
 	verifrt.ExitHook = func(code int) { panic(verifrt.ExitPanic{Code: code}) }
 }
 
-func stackMeta(i int) string {
+func vfStackMeta(i int) string {
 	return fmt.Sprintf("TimeBegin: 2024-01-0%dT00:00:00Z\nTimeEnd: 2024-01-0%dT00:00:00Z\nProgram: example.com/p%d\nVersion: v1.%d.0\nGoVersion: go1.22.%d\nGOOS: linux\nGOARCH: amd64\n\n", 1+i%7, 2+i%7, i, i, i)
 }
 
-func writeTemp(dir, name string, data []byte) string {
+func vfWriteTemp(dir, name string, data []byte) string {
 	p := filepath.Join(dir, name)
 	if err := os.WriteFile(p, data, 0o644); err != nil {
 		panic(err)
